@@ -125,6 +125,18 @@ def history_strategy(min_ops=4, max_ops=40, **kw):
       [['create_study', 'o0', 's_a'], ['create_study', 'o0', 'sxa'],
        ['create_study', 'o0', 'S_A'], ['suggest', 'o0', 's_a', 'w1', 1],
        ['suggest', 'o0', 'sxa', 'w1', 2], ['suggest', 'o0', 'S_A', 'w2', 1]],
+      # an early-stopping decision is computed for a trial that is then
+      # completed / deleted (and its id re-issued): the next check must look at
+      # the trial as it is now, on every backend
+      [['create_study', 'o0', 's_a'], ['suggest', 'o0', 's_a', 'w1', 2],
+       ['early_stop', 'o0', 's_a', 1],
+       ['complete', 'o0', 's_a', 1,
+        {'final': 1.0, 'infeasible': False, 'reason': ''}],
+       ['early_stop', 'o0', 's_a', 1]],
+      [['create_study', 'o0', 's_a'], ['suggest', 'o0', 's_a', 'w1', 2],
+       ['early_stop', 'o0', 's_a', 2], ['delete_trial', 'o0', 's_a', 2],
+       ['early_stop', 'o0', 's_a', 2], ['suggest', 'o0', 's_a', 'w2', 1],
+       ['stop', 'o0', 's_a', 2], ['early_stop', 'o0', 's_a', 2]],
       # two owners with a study of the same id, trials and operations in both
       [['create_study', 'o0', 's_a'], ['create_study', 'o1', 's_a'],
        ['suggest', 'o0', 's_a', 'w1', 2], ['suggest', 'o1', 's_a', 'w1', 2],
